@@ -547,7 +547,7 @@ CLAUSES = {
 }
 for _k, _f in CLAUSES.items():
     _f.function = {"me": FN, "ua": FN, "isd": "is_distinguishable", "tdm": "to_density_matrix", "gram": "vectors_to_gram_matrix"}[_k.split(".")[0]]
-    _f.limit = 40
+    _f.limit = 25
 
 ME_GENERIC = ["me.returns_normally", "me.povm_valid", "me.povm_attains", "me.value_le_opt", "me.value_ge_opt", "me.le_one", "me.ge_max_prior", "me.ge_pgm"]
 UA_GENERIC = ["ua.returns_normally", "ua.range", "ua.le_min_error", "ua.value_le_opt", "ua.value_ge_opt"]
@@ -598,7 +598,7 @@ def cases(tier, seed):
                             if slow and k > 0 and not thorough:
                                 continue
                             base = dict(n=n, d=d, field=field, form=form, solver=solver, prior=pick(priors, i), kind="mixed", rank=rank, seed=sd + i)
-                            for cl in clauses:
+                            for cl in (clauses if thorough or not slow else clauses[:1] + clauses[2:5]):
                                 add(cl, base, icl("min_error", form, field, "dm", solver))
             # ---- two states: Helstrom (pure pairs with prescribed overlap, mixed pairs)
             for field in fields:
@@ -646,7 +646,8 @@ def cases(tier, seed):
                         add("me.relabel_invariance", base, icl("min_error", form, field, "any", solver))
                     i += 1
                     base = dict(n=n, d=d, field=field, solver=solver, rep=pick(reps, i), prior=pick(priors, i), kind=pick(["pure", "pure", "mixed"], i), seed=sd + i, phases=True)
-                    add("me.primal_eq_dual", base, icl("min_error", "both", field, "any", solver))
+                    if thorough or n >= 4 or (n, d) == (2, 3):
+                        add("me.primal_eq_dual", base, icl("min_error", "both", field, "any", solver))
                     base = dict(n=n, d=d, field=field, form=pick(forms, i), solver=solver, prior=pick(priors, i), kind="pure", seed=sd + i, phases=True)
                     add("me.representation_invariance", base, icl("min_error", pick(forms, i), field, "vec", solver))
             # ---- unambiguous (pure states, vectors)
